@@ -2,5 +2,6 @@
 # usage: tools/try_patch.sh <patch> <check args...>   -- applies a patch to /repo, runs ./check, reverts
 P="$1"; shift
 cd /repo && git apply "$P" || { echo "PATCH DOES NOT APPLY"; exit 3; }
-cd /verif && ./check "$@" 2>/dev/null | grep -v "^KNOWN-FINDING" | tail -4
+mkdir -p /tmp/verif-evidence-scratch
+cd /verif && VERIF_EVIDENCE_DIR=/tmp/verif-evidence-scratch ./check "$@" 2>/dev/null | grep -v "^KNOWN-FINDING" | tail -4
 git -C /repo checkout -- .
